@@ -258,7 +258,7 @@ Section Transform.
 End Transform.
 
 (* doctransformer.Transformer.TransformDocument (generic documents): the internal document with "id" set;
-   no "@context" member at the top because ResolutionResult.Context is nil there -> "@context": null *)
+   the "@context" member is null because the Go result struct leaves that field nil there *)
 Definition transform_generic (opts : topts) (rm : rmodel) (info : tinfo) : option json :=
   match document_metadata opts rm info with
   | None => None
